@@ -147,7 +147,9 @@ Nom(op) ==
 
 Apply(r, u) == [f \in DOMAIN r |-> IF f \in DOMAIN u THEN u[f] ELSE r[f]]
 
-Points(lo, hi) == {x \in {lo - 1, lo, lo + 1, hi - 1, hi, hi + 1} : x >= 1}
+\* boundary points of a documented range; the thorough case set (WithPairs) adds two interior points
+Points(lo, hi) == {x \in {lo - 1, lo, lo + 1, hi - 1, hi, hi + 1}
+                         \cup (IF WithPairs THEN {(lo + hi) \div 2, (lo + hi) \div 3} ELSE {}) : x >= 1}
 DimPts == {x \in Points(DimLo, DimHi) : x >= 1}
 Faf == {"NONE", "RELU", "RELU6", "RELU_N1_TO_1", "TANH", "SIGN_BIT"}
 
